@@ -161,6 +161,7 @@ pub async fn client_entrypoint(
                         }
 
                         let result = client.handle().await;
+                        crate::vtrace!("handle_done", "pid" => client.verif_pid(), "ok" => result.is_ok());
 
                         if !client.is_admin() {
                             let _ = drain.send(-1).await;
@@ -213,6 +214,7 @@ pub async fn client_entrypoint(
                                 }
 
                                 let result = client.handle().await;
+                        crate::vtrace!("handle_done", "pid" => client.verif_pid(), "ok" => result.is_ok());
 
                                 if !client.is_admin() {
                                     let _ = drain.send(-1).await;
@@ -267,6 +269,7 @@ pub async fn client_entrypoint(
                     }
 
                     let result = client.handle().await;
+                        crate::vtrace!("handle_done", "pid" => client.verif_pid(), "ok" => result.is_ok());
 
                     if !client.is_admin() {
                         let _ = drain.send(-1).await;
@@ -296,6 +299,7 @@ pub async fn client_entrypoint(
                     }
 
                     let result = client.handle().await;
+                        crate::vtrace!("handle_done", "pid" => client.verif_pid(), "ok" => result.is_ok());
 
                     if !client.is_admin() {
                         let _ = drain.send(-1).await;
@@ -424,6 +428,11 @@ where
         self.admin
     }
 
+    #[cfg(feature = "verif")]
+    pub fn verif_pid(&self) -> i32 {
+        self.process_id
+    }
+
     /// Handle Postgres client startup after TLS negotiation is complete
     /// or over plain text.
     pub async fn startup(
@@ -471,6 +480,7 @@ where
                 "Rejecting non-admin connection to {} when in admin only mode",
                 pool_name
             );
+            crate::vtrace!("startup_reject", "cid" => addr.port(), "why" => "admin_only");
             error_response_terminal(
                 &mut write,
                 "terminating connection due to administrator command",
@@ -752,6 +762,9 @@ where
         backend_key_data(&mut write, process_id, secret_key).await?;
         send_ready_for_query(&mut write).await?;
 
+        crate::vtrace!("startup_ok", "cid" => addr.port(), "pid" => process_id, "admin" => admin,
+            "txmode" => transaction_mode, "pool" => pool_name.as_str(), "user" => username.as_str(),
+            "admin_only" => admin_only);
         trace!("Startup OK");
         let stats = Arc::new(ClientStats::new(
             process_id,
@@ -840,11 +853,19 @@ where
                     // We found the server the client is using for its query
                     // that it wants to cancel.
                     Some((process_id, secret_key, address, port)) => {
+                        crate::vtrace!("cancel_lookup", "pid" => self.process_id, "found" => true,
+                            "spid" => *process_id, "port" => *port);
                         (*process_id, *secret_key, address.clone(), *port)
                     }
 
                     // The client doesn't know / got the wrong server,
                     // we're closing the connection for security reasons.
+                    #[cfg(feature = "verif")]
+                    None => {
+                        crate::vtrace!("cancel_lookup", "pid" => self.process_id, "found" => false,
+                            "spid" => 0, "port" => 0);
+                        return Ok(());
+                    }
                     None => return Ok(()),
                 }
             };
@@ -902,6 +923,7 @@ where
 
             let message = tokio::select! {
                 _ = self.shutdown.recv() => {
+                    crate::vtrace!("shutdown_seen", "pid" => self.process_id, "admin" => self.admin);
                     if !self.admin {
                         error_response_terminal(
                             &mut self.write,
@@ -919,6 +941,9 @@ where
                 },
                 message_result = read_message(&mut self.read) => message_result?
             };
+
+            crate::vtrace!("msg", "pid" => self.process_id, "at" => "idle",
+                "code" => (message[0] as char).to_string(), "len" => message.len());
 
             if message[0] as char == 'X' {
                 debug!("Client disconnecting");
@@ -1057,11 +1082,21 @@ where
             };
 
             // Check if the pool is paused and wait until it's resumed.
+            crate::vtrace!("pause_enter", "pid" => self.process_id);
+            #[cfg(feature = "verif")]
+            crate::verif::CURRENT_CLIENT.scope(self.process_id, pool.wait_paused()).await;
+            #[cfg(not(feature = "verif"))]
             pool.wait_paused().await;
+            crate::vtrace!("pause_leave", "pid" => self.process_id);
 
             // Refresh pool information, something might have changed.
             pool = self.get_pool().await?;
             query_router.update_pool_settings(&pool.settings);
+            crate::vtrace!("pool_resolved", "pid" => self.process_id,
+                "hash" => pool.config_hash.to_string());
+            crate::vtrace!("route", "pid" => self.process_id,
+                "shard" => query_router.shard().map(|s| s as i64).unwrap_or(-1),
+                "role" => format!("{:?}", query_router.role()));
 
             debug!("Waiting for connection from pool");
             if !self.admin {
@@ -1110,6 +1145,7 @@ where
                         query_router.role(),
                         err
                     );
+                    crate::vtrace!("checkout_fail", "pid" => self.process_id, "err" => format!("{:?}", err));
                     checkout_failure_count += 1;
                     if let Some(limit) = pool.settings.checkout_failure_limit {
                         if checkout_failure_count >= limit {
@@ -1141,6 +1177,9 @@ where
             // cancel a query later.
             server.claim(self.process_id, self.secret_key);
             self.connected_to_server = true;
+            crate::vtrace!("checkout_ok", "pid" => self.process_id, "spid" => server.verif_pid(),
+                "addr" => address.id, "shard" => address.shard, "role" => format!("{:?}", address.role),
+                "port" => address.port);
 
             // Update statistics
             self.stats.active();
@@ -1227,6 +1266,8 @@ where
                 // This reads the first byte without advancing the internal pointer and mutating the bytes
                 let code = *message.first().unwrap() as char;
 
+                crate::vtrace!("msg", "pid" => self.process_id, "at" => "tx",
+                    "code" => code.to_string(), "len" => message.len());
                 trace!("Client message: {}", code);
 
                 match code {
@@ -1301,6 +1342,7 @@ where
                         server.checkin_cleanup().await?;
                         self.stats.disconnect();
                         self.release();
+                        crate::vtrace!("release", "pid" => self.process_id, "spid" => server.verif_pid(), "how" => "terminate");
 
                         return Ok(());
                     }
@@ -1619,6 +1661,7 @@ where
 
             self.release();
             self.stats.idle();
+            crate::vtrace!("release", "pid" => self.process_id, "spid" => server.verif_pid(), "how" => "normal");
         }
     }
 
@@ -1971,6 +2014,7 @@ where
     pub fn release(&self) {
         let mut guard = self.client_server_map.lock();
         guard.remove(&(self.process_id, self.secret_key));
+        crate::vtrace!("map_remove", "pid" => self.process_id);
     }
 
     async fn send_and_receive_loop(
@@ -2090,6 +2134,7 @@ impl<S, T> Drop for Client<S, T> {
     fn drop(&mut self) {
         let mut guard = self.client_server_map.lock();
         guard.remove(&(self.process_id, self.secret_key));
+        crate::vtrace!("client_drop", "pid" => self.process_id, "connected" => self.connected_to_server);
 
         // Dirty shutdown
         // TODO: refactor, this is not the best way to handle state management.
